@@ -27,8 +27,8 @@ def struct_fields(X, src, name):
 
 
 def extract(g, X):
-    types = X.strip_comments(X.read("pdf/src/object/types.rs"))
-    filers = X.strip_comments(X.read("pdf/src/file.rs"))
+    types = X.source("pdf/src/object/types.rs")
+    filers = X.source("pdf/src/file.rs")
 
     def impl_pagetree():
         return X.item_body(types, r"impl\s+PageTree\s*\{", "impl PageTree")
